@@ -142,6 +142,17 @@ func judge(typ reflect.Type, data []byte, service bool) (string, outcome) {
 		return fmt.Sprintf("decode panicked: %v", o.pan), o
 	}
 	limit := uint64(allocFactor*len(data) + allocFixed)
+	// Gross excess is not re-measured: the CPU time is the decoding thread's own
+	// (a busy machine does not stretch it) and no other goroutine of this
+	// process allocates hundreds of MiB. Re-measuring would even hide a real
+	// cost: reflect caches the slice types a decode creates, so the second
+	// decode of the same input is cheap while a peer simply varies its input.
+	if o.alloc > 4*limit && o.alloc > 64<<20 {
+		return fmt.Sprintf("decoding %d input bytes allocated %d bytes (bound %d; first decode of this input in the process)", len(data), o.alloc, limit), o
+	}
+	if len(data) <= 64<<10 && o.dur > 3*timeBound {
+		return fmt.Sprintf("decoding %d input bytes took %v of CPU time (bound %v; first decode of this input in the process)", len(data), o.dur, timeBound), o
+	}
 	if o.alloc > limit || (len(data) <= 64<<10 && o.dur > timeBound) {
 		// confirm in isolation (other goroutines of the process also allocate;
 		// a busy machine stretches time): violation only if it reproduces twice
